@@ -114,6 +114,7 @@ NodeG ==
                 /\ SelS(s) /\ SelSp(sp)
                 /\ UseCls => (~k => (c = "none" /\ ~r /\ t = <<"a">>))      \* one representative of the malformed-id class
                 /\ (UseCls /\ InCls("pubgood")) => PubCode(s, c, sp, t, r, k) \in {"fanout", "relayed-fanout"}
+                /\ ~UseCls => PubCode(s, c, sp, t, r, k) \in {"fanout", "relayed-fanout"}   \* exhaustive generation: accepted publishes only
                 /\ Publish(s, c, sp, t, r, k)
                 /\ Rec([act |-> "Publish", s |-> s, claimed |-> c, sp |-> sp, t |-> t, relayed |-> r, idOk |-> k])
 
